@@ -3,6 +3,7 @@ import Tahoe.Immutable.Examples
 import Tahoe.Immutable.LemmasNodeQueue
 import Tahoe.Immutable.LemmasReaders
 import Tahoe.Immutable.LemmasSysRefine
+import Tahoe.Immutable.LemmasRS256
 /-! C04 — random-access and concurrent immutable reads (property theorems; helper lemmas live in
     `Tahoe/Immutable/Lemmas*.lean`).
 
@@ -10,7 +11,7 @@ import Tahoe.Immutable.LemmasSysRefine
 
 | clause of the statement | theorem(s) for the model |
 |---|---|
-| reading any byte range of an immutable file returns exactly that slice of the plaintext | `read_slice` (CHK, through the segment loop: guessed/known segment size, retry, trimming) + `ctr_offset`, `ctr_stream_chunks` (decryption positioned at the offset); `read_slice_literal` (LIT) |
+| reading any byte range of an immutable file returns exactly that slice of the plaintext | `read_slice_rs256` (zfec's code, no assumption on the erasure code: C36 `rs256_mds`), `read_slice` (CHK, through the segment loop: guessed/known segment size, retry, trimming) + `ctr_offset`, `ctr_stream_chunks` (decryption positioned at the offset); `read_slice_literal` (LIT) |
 | … clipped at end-of-file; ranges that start at or past the end return nothing; unspecified size | `read_slice` (`size = none`, any `offset`), `read_slice_literal` (explicit length formula) |
 | several reads of different ranges issued concurrently on the same file object each receive their own correct slice | safety: `concurrent_reads_safe` — for every number of readers and every schedule of segment deliveries (any reader may be handed any segment of the file at any time), every reader's output is a prefix of its own slice, equal to it once nothing remains wanted, and is a function of its own deliveries only; over the composed node + reads system of C03/C46 (`Tahoe.Fetch.Sys`, any history): `reads_refine` — every byte a read's consumer receives is the byte at that read's own position, decrypting to its plaintext slice; that the node hands out only genuine segments, to exactly the requesters: `concurrent_reads_independent_partial` (queue) + C01 `upload_download` (segment contents).  **Completion** (every live reader eventually gets all its deliveries) is liveness: **monitor only** here, C03/C46 |
 | cancelling or pausing one read does not disturb the others | `concurrent_reads_independent_partial` (1)(2): cancel removes only the canceller's request, pending requests always keep a fetch active; `concurrent_reads_safe` (independence: another reader's events do not change this reader's state; pause/resume change no reader's data state); `reads_refine` (4): pause / resume / turn / stop of any read deliver no byte to anybody, in the composed system where a stop really cancels the request at the node.  That `Tahoe.Fetch.Sys` matches the real plumbing between `process_blocks` and `_got_segment`: correspondence (C46 harness `sys` lines; (scripted pause/resume/stop from inside and outside `write()` in harness/props/c04.py) |
@@ -74,6 +75,16 @@ theorem read_slice {Key : Type} (ks : Key → Nat → Block16) (c : Codec) (key 
       (by split <;> omega)
     simp only [h1, Except.map, h2]
     rw [decrypt_slice, hclip]
+
+/-- `read_slice_rs256`: `read_slice` with zfec's code and no assumption on the erasure code (C36 `rs256_mds`) -/
+theorem read_slice_rs256 {Key : Type} (ks : Key → Nat → Block16) (key : Key) (pt : List UInt8)
+    (k n maxSeg : Nat) (hk : 1 ≤ k) (hkn : k ≤ n) (hn : n ≤ 256) (hmax : 0 < maxSeg) (hpt : 0 < pt.length)
+    (pick : Nat → List Nat) (hpick : ∀ s, ValidIds k n (pick s))
+    (defaultMaxSeg : Nat) (hdm : 0 < defaultMaxSeg) (known : Bool) (offset : Nat) (size : Option Nat) :
+    ∃ u, upload ks rs256Codec key pt k n maxSeg = .ok u ∧
+      Pipeline.read ks rs256Codec u pick defaultMaxSeg known offset size = .ok (litRead pt offset size) :=
+  read_slice ks rs256Codec key pt k n maxSeg hk hmax hpt (rs256Codec_lawful k n hk hkn hn) pick hpick
+    defaultMaxSeg hdm known offset size
 
 /-- a concrete run: 1-of-3 replication, 3-byte segments, wrong guess (one retry), a read crossing a
     segment boundary -/
